@@ -207,3 +207,31 @@ VARIANTS += [
  V("c37-p3-reintroduce-leak", "C37", "C04.P3", "snapshot.go",
    "	case <-es.closed:\n		vers.UnrefLocked()\n", "	case <-es.closed:\n"),
 ]
+
+VARIANTS += [
+ V("c47-c1-filecache-not-closed", "C47", "C47.C1", "db.go",
+   "	err = firstError(err, d.fileCache.Close())\n", ""),
+]
+
+VARIANTS += [
+ V("c43-n1-reintroduce-F9", "C43", "C43.N1", "excise.go",
+   "		} else if err := iters.Point().Error(); err != nil {\n			// A nil KV may indicate an error rather than the absence of point keys;\n			// treating it as the latter would drop the remaining point keys.\n			return err\n		}", "		}"),
+ V("c43-n1-reintroduce-F10", "C43", "C43.N1", "sstable/suffix_rewriter.go",
+   "	if err := i.Error(); err != nil {\n		return nil, err\n	}\n	if err := rewriteRangeKeyBlockToWriter", "	if err := rewriteRangeKeyBlockToWriter"),
+ V("c43-s1-reintroduce-F6", "C43", "C43.S1", "sstable/blob/blob.go",
+   "		writable := w.w\n		w.w = nil\n		return writable.Finish()", "		return w.w.Finish()"),
+ V("c27-o1-checksum-not-gating", "C27", "C27.O1", "sstable/block/block.go",
+   "	if err = ValidateChecksum(r.checksumType, compressed.BlockData(), bh); err != nil {", "	if err = ValidateChecksum(r.checksumType, compressed.BlockData(), bh); err != nil && kind == 0 {"),
+ V("c43-o2-failure-not-handled", "C43", "C43.O2", "compaction.go",
+   "			if compactErr != nil {\n				d.handleCompactFailure(c, compactErr)\n			}", "			if compactErr != nil && errChannel == nil {\n				d.handleCompactFailure(c, compactErr)\n			}"),
+]
+
+VARIANTS += [
+ V("c27-v1-suffix-rewriter-fast-path-before-checksum", "C27", "C27.V1", "sstable/suffix_rewriter.go",
+   "	if err := block.ValidateChecksum(checksumType, raw, bh); err != nil {\n		return nil, buf, err\n	}\n	algo := block.CompressionIndicator(raw[bh.Length])",
+   "	algo := block.CompressionIndicator(raw[bh.Length])\n	if algo == block.NoCompressionIndicator && len(buf) == 0 {\n		return raw[:bh.Length], buf, nil\n	}\n	if err := block.ValidateChecksum(checksumType, raw, bh); err != nil {\n		return nil, buf, err\n	}"),
+ V("c27-o2-footer-checksum-skipped", "C27", "C27.O2", "sstable/table.go",
+   "			if encodedChecksum != computedChecksum {", "			if encodedChecksum != computedChecksum && format >= TableFormatPebblev7 {"),
+ V("c27-o3-cache-failed-read", "C27", "C27.O3", "sstable/block/block.go",
+   "	if err != nil {\n		crh.SetReadError(err)\n		return BufferHandle{}, env.maybeReportCorruption(err)\n	}\n	crh.SetReadValue(value.v)", "	crh.SetReadValue(value.v)\n	if err != nil {\n		return BufferHandle{}, env.maybeReportCorruption(err)\n	}"),
+]
